@@ -13,6 +13,7 @@
 //	                 /K<names looked up> /R<response cookies as the handler left them, with parse>
 //	                 /P<parse of the response cookies after the middleware>
 //	                 /T<independent AES-GCM open of each value after the middleware, under `key`>
+//	                 /Q<Cookie header values as fasthttp stored them> /D<direct SetCookie calls on top>
 //	obs    what the implementation did, per step:
 //	       E<cookies the handler enumerates> /L<c.Cookies(name)> /B<Bind().Cookie map> /H<c.Get("Cookie")>
 //	       /W<Set-Cookie list on the wire | panic>
@@ -502,6 +503,8 @@ func applyMuts(v []byte, ms []mut) []byte {
 
 type stepOut struct {
 	jar, enum, look []kv
+	stored          []string // Cookie header values as fasthttp stored them (before any cookie access)
+	direct          []kv     // req.Header.SetCookie calls made on top
 	lookKeys        []string
 	bind            [][]string // key, values...
 	bindErr         bool
@@ -668,6 +671,14 @@ func runCase(id string, c cfgIn, steps []step) (aux, obs string, err error) {
 		if e := buildRequest(hdrs, direct, &probe); e != nil {
 			return "", "", errMangled
 		}
+		var probe2 fasthttp.Request
+		if e := buildRequest(hdrs, nil, &probe2); e != nil {
+			return "", "", errMangled
+		}
+		for _, v := range probe2.Header.PeekAll("Cookie") {
+			st.stored = append(st.stored, string(v))
+		}
+		st.direct = direct
 		probe.Header.VisitAllCookie(func(k, v []byte) { st.jar = append(st.jar, kv{string(k), string(v)}) })
 		seen := map[string]bool{}
 		for _, e := range st.jar {
@@ -748,7 +759,12 @@ func runCase(id string, c cfgIn, steps []step) (aux, obs string, err error) {
 			}
 			return strings.Join(x, ",")
 		}
-		auxs = append(auxs, "J"+jarField(st.jar)+"/K"+lst(ks)+"/R"+lst(rs)+"/P"+lst(ps)+"/T"+lst(st.opens))
+		qs := make([]string, len(st.stored))
+		for i, v := range st.stored {
+			qs[i] = hc(v)
+		}
+		auxs = append(auxs, "J"+jarField(st.jar)+"/K"+lst(ks)+"/R"+lst(rs)+"/P"+lst(ps)+"/T"+lst(st.opens)+
+			"/Q"+lst(qs)+"/D"+jarField(st.direct))
 		var bs []string
 		for _, row := range st.bind {
 			cs := make([]string, len(row))
